@@ -286,6 +286,23 @@ prop(
     min_counters={"quick": {"sessions_Flush": 500, "sessions_IntoInner": 500, "sessions_Drop": 500}, "thorough": {"sessions_Flush": 20000}},
 )
 
+prop(
+    "C15",
+    title="A successful flush means the data reached the medium, even when writes fail",
+    level="fault_enumeration",
+    technique="fault-injecting instrumented medium: every write/read/seek/flush call index of 11 operation scripts failed once (transient) and from then on (persistent); panic supervisor; reopen oracle whenever every call incl. the final flush/into_inner returned Ok",
+    rule="11 scripts (create+insert, update+delete, drop table, 70 KB stream, summary change, code-page change, 70 KB string, reopen-then-modify, 600-row batch, two tables "
+         "sharing strings, Package::create itself) first run fault-free to count their I/O calls, then re-run once per (call kind, index k, transient|persistent); quick: write "
+         "indices at stride 1 (5 for >1500-write scripts, 37 for Package::create), reads/seeks at stride 3; thorough: every index; distinct = (script, fault kind, persistence, "
+         "fault site = innermost msi:: / cfb:: frames at injection); non-trivial = the armed fault actually fired",
+    level_text="Complete enumeration of single fault points over the scripts' I/O traces. A run in which some call returned Err carries no state obligation (only 'no panic'); "
+               "a run in which everything returned Ok must reopen to the fault-free result.",
+    level_note="Fault sites are identified by stack frames, not by call index, so signatures survive code motion. Short writes are not injected.",
+    assumptions=[TRUST_CFB, "one fault plan per run (single transient or single persistent fault)"],
+    design_ref="3/C15",
+    min_counters={"quick": {"faults_fired_write": 5000, "faults_fired_seek": 1000, "scripts": 11}, "thorough": {"faults_fired_write": 20000, "scripts": 11}},
+)
+
 ALL_IDS = ["C%02d" % i for i in range(1, 21)]
 
 
